@@ -1,0 +1,46 @@
+//! Verification hook H2 (feature `verif-hooks` only): crash points. `crash_point(label)` is called
+//! immediately before and after every durable write; an out-of-tree harness arms the n-th one to
+//! unwind (a simulated kill at that instant), then discards every in-memory object and re-bootstraps
+//! from the database file. Unarmed, it only counts.
+use std::sync::atomic::{AtomicI64, AtomicU64, Ordering};
+use std::sync::Mutex;
+
+static COUNT: AtomicU64 = AtomicU64::new(0);
+static ARMED: AtomicI64 = AtomicI64::new(-1);
+static LABELS: Mutex<Vec<&'static str>> = Mutex::new(Vec::new());
+
+pub fn crash_point(label: &'static str) {
+    let n = COUNT.fetch_add(1, Ordering::SeqCst);
+    if let Ok(mut l) = LABELS.lock() {
+        l.push(label);
+    }
+    if ARMED.load(Ordering::SeqCst) == n as i64 {
+        ARMED.store(-1, Ordering::SeqCst);
+        panic!("verif-crash at point {n} ({label})");
+    }
+}
+
+/// Arms the crash point with index `n` counted from the last `reset`.
+pub fn arm(n: u64) {
+    ARMED.store(n as i64, Ordering::SeqCst);
+}
+
+pub fn disarm() {
+    ARMED.store(-1, Ordering::SeqCst);
+}
+
+pub fn reset() {
+    COUNT.store(0, Ordering::SeqCst);
+    ARMED.store(-1, Ordering::SeqCst);
+    if let Ok(mut l) = LABELS.lock() {
+        l.clear();
+    }
+}
+
+pub fn count() -> u64 {
+    COUNT.load(Ordering::SeqCst)
+}
+
+pub fn labels() -> Vec<&'static str> {
+    LABELS.lock().map(|l| l.clone()).unwrap_or_default()
+}
